@@ -6,32 +6,41 @@ is_first / is_last at the three strategies; R06.4 page-break geometry uses the s
 words as the document start, landscape flag; R06.5 page header/footer emitted once per document; R06.6 page flags are
 written only where pages are created.
 
-The emitters are not recognised by statement shape: they are *evaluated* (FlowDT below, an extension of the decision-table
-interpreter) over symbolic documents / concrete small models, and the rules compare what reaches the output.
+The emitters are not recognised by statement shape: they are evaluated *abstractly* (FlowDT below, an extension of the
+decision-table interpreter): every input is an uninterpreted symbol, every consulted condition is enumerated over all its
+valuations, a loop over a symbolic collection is evaluated as ONE generic iteration (symbolic position, atoms `is first` /
+`is last`), and the rules judge the resulting summary (what reaches the output, in which order, from which terms).
 """
 from __future__ import annotations
 
 import ast
 import itertools
 import re
+from dataclasses import dataclass
+from typing import Any
 
 from ..astmatch import leaves, resolve
 from ..consteval import const_expr
 from ..absint import NOC
-from ..dtab import DT, Sym, NeedAtom, Unsupported, Run, _Raise, _Continue, _Break, _OPS
+from ..dtab import DT, Sym, NeedAtom, Unsupported, Run, _Raise, _Continue, _Break, _OPS, _cmp
 from ..pm import dotted, unparse, walk_no_nested
 from ..report import Ctx
 
 # ---------------------------------------------------------------------------------------------------------------
-# FlowDT: the decision-table interpreter of sa/dtab, extended so that whole emitter functions can be evaluated:
-# list accumulators stay concrete (symbolic contents are elements), generators are run eagerly, symbolic loops are
-# evaluated once over a generic element (bracketed by markers), methods bound with getattr()/stored in tables are
-# called through, class-level constants are read, callee that are not decision logic are opaque symbols.
-# Rules read the *result* (what is emitted, in which order, from which sources) instead of the statement shapes.
+# FlowDT: the decision-table interpreter of sa/dtab, extended so that whole emitter functions can be evaluated
+# abstractly.  Inputs are uninterpreted symbols; values built from them are structured terms (subscript, slice, call,
+# integer-linear form); list accumulators stay concrete (their *contents* are symbolic terms); generators are run
+# eagerly; a loop over a symbolic collection (for / comprehension / while) is evaluated as ONE generic iteration: the
+# position is a symbol, comparisons of it with the ends of the collection become the atoms `<loop> is first` /
+# `<loop> is last` (enumerated like every other condition), what a generic iteration adds to an accumulator is bracketed
+# by markers, loop-carried locals of a while loop enter as unconstrained symbols.  Methods bound with getattr()/stored
+# in tables are called through, class-level constants are read, callees that are not decision logic are opaque terms.
+# No concrete model of any input exists: concrete values come only from literals of the analysed source.
+# Rules read the *summary* (what is emitted, in which order, from which terms, under which valuation).
 # ---------------------------------------------------------------------------------------------------------------
 
 class Marker:
-    """bracket of one symbolic loop pass inside a concrete accumulator"""
+    """bracket of one generic loop iteration inside a concrete accumulator"""
 
     def __init__(self, kind: str, loop: str):
         self.kind, self.loop = kind, loop
@@ -41,37 +50,113 @@ class Marker:
 
 
 class SymIter:
-    """symbolic iterable: kind in range/enumerate/zip"""
+    """symbolic iterable: kind in range/enumerate/zip; range items = [start, stop, step], enumerate items = [seq, start]"""
 
     def __init__(self, kind: str, items: list, n_text: str = ""):
         self.kind, self.items, self.n_text = kind, items, n_text
 
 
-class RowModel:
-    """one row of a modelled frame that is keyed by a page number: element 0 is the number, the rest is symbolic"""
+@dataclass(frozen=True, eq=False)
+class LinV(Sym):
+    """integer-linear form over symbolic terms: lin = ((term path, coefficient), ...), '' = constant"""
+    lin: tuple = ()
+    terms: tuple = ()
 
-    def __init__(self, key, tag: str):
-        self.key, self.tag = key, tag
 
-    def __repr__(self):
-        return f"<row {self.key} of {self.tag}>"
+@dataclass(frozen=True, eq=False)
+class SubV(Sym):
+    base: Any = None
+    key: Any = None
+
+
+@dataclass(frozen=True, eq=False)
+class SliceV(Sym):
+    base: Any = None
+    lo: Any = None
+    hi: Any = None
+    step: Any = None
+
+
+@dataclass(frozen=True, eq=False)
+class CallV(Sym):
+    """result of a call that is not interpreted: callee name, receiver, argument terms"""
+    fn: str = ""
+    recv: Any = None
+    args: tuple = ()
+    kw: tuple = ()
+
+
+def lin_of(v) -> dict | None:
+    """{term path: coefficient, '': constant} of an integer-valued term"""
+    if isinstance(v, bool):
+        return None
+    if isinstance(v, (int, float)):
+        return {"": v} if v else {}
+    if isinstance(v, LinV):
+        return dict(v.lin)
+    if isinstance(v, Sym):
+        return {v.path: 1}
+    return None
+
+
+def lin_add(a: dict, b: dict, sign: int = 1) -> dict:
+    out = dict(a)
+    for k, c in b.items():
+        out[k] = out.get(k, 0) + sign * c
+        if out[k] == 0:
+            del out[k]
+    return out
+
+
+def lin_text(d: dict) -> str:
+    out = ""
+    for k, c in list((k, c) for k, c in d.items() if k != "") + ([("", d[""])] if "" in d else []):
+        mag = abs(c)
+        t = str(mag) if k == "" else (k if mag == 1 else f"{mag}*{k}")
+        out = (("-" if c < 0 else "") + t) if not out else out + (" - " if c < 0 else " + ") + t
+    return out or "0"
+
+
+def mk_lin(d: dict, terms: dict):
+    if set(d) <= {""}:
+        return d.get("", 0)
+    if len(d) == 1:
+        (k, c), = d.items()
+        if c == 1 and k in terms:
+            return terms[k]
+    return LinV(lin_text(d), None, tuple(d.items()), tuple(terms[k] for k in d if k in terms))
+
+
+def _terms(*vs) -> dict:
+    out = {}
+    for x in vs:
+        if isinstance(x, LinV):
+            out.update({t.path: t for t in x.terms})
+        elif isinstance(x, Sym):
+            out[x.path] = x
+    return out
+
+
+_FLIP = {ast.Lt: ast.Gt, ast.Gt: ast.Lt, ast.LtE: ast.GtE, ast.GtE: ast.LtE, ast.Eq: ast.Eq, ast.NotEq: ast.NotEq}
 
 
 class FlowDT(DT):
     def __init__(self, pm, atoms=None, effect_calls=None, classes=None, max_atoms=40, inline_depth=6, opaque=(), inline=None,
-                 relevant=None, regime=True, preset=None, call_model=None, seq_model=None, sym_domain=None, root_cls=None):
+                 relevant=None, regime=True, preset=None, sym_domain=None, root_cls=None):
         super().__init__(pm, atoms=atoms, effect_calls=effect_calls, classes=classes, max_atoms=max_atoms, inline_depth=inline_depth)
         self.opaque = set(opaque)            # callee names never inlined (their result is a symbol showing the arguments)
         self.inline = inline                 # predicate FuncInfo -> bool (default: methods of the root function's class)
         self.relevant = relevant             # substrings: atoms not mentioning any of them are pinned (regime)
         self.regime = regime
-        self.preset = dict(preset or {})     # path -> value, re-seeded into the store of every run
-        self.call_model = call_model or {}   # callee name -> function(args) -> value  (concrete model of an external)
-        self.seq_model = seq_model           # function(path) -> list | None   (concrete model of a symbolic sequence)
-        self.sym_domain = sym_domain         # function(path) -> list | None   (finite domain of a symbolic value)
+        self.preset = dict(preset or {})     # path -> structured symbolic term (e.g. a tuple of symbols), re-seeded into the store of every run
+        self.sym_domain = sym_domain         # function(path) -> list | None   (finite domain of the TYPE of a symbolic value, e.g. a byte)
         self.root_cls = root_cls
         self.pinned: set[str] = set()
         self.loops = 0
+        self.gen_loops: dict[str, list] = {}     # generic loop -> linear forms of the number of iterations
+        self.cmpinfo: dict[str, tuple] = {}      # atom key -> (op type, left term, right term)
+        self.raw: dict[int, Any] = {}            # effect number -> unrendered payload (terms)
+        self.domain_reads: dict[str, Any] = {}   # path -> term, for terms enumerated over the domain of their type
         self.copies = 0
         self.yields: list[list] = []
         self._attr_cls_cache: dict = {}
@@ -87,6 +172,8 @@ class FlowDT(DT):
         self.loops = 0
         self.copies = 0
         self.yields = []
+        self.gen_loops = {}
+        self.raw = {}
         if self.root_cls is None and fi.cls:
             self.root_cls = fi.cls
         try:
@@ -94,7 +181,13 @@ class FlowDT(DT):
         except _Raise as r:
             self.run_state.raised = r.what
         self.run_state.stores = dict(self.stores)         # final state of the attribute stores of this run
+        self.run_state.raw = self.raw
         return self.run_state
+
+    def effect(self, kind: str, *payload, raw=None) -> None:
+        super().effect(kind, *payload)
+        if raw is not None:
+            self.raw[len(self.run_state.effects)] = raw
 
     def fresh_copy(self, v, deep: bool = True):
         """a copy is a new object: stores to it do not reach the original (reads of unset attributes are new symbols)"""
@@ -152,6 +245,7 @@ class FlowDT(DT):
             d = self.sym_domain(v.path)
             if d is not None:
                 self.atoms[v.path] = list(d)
+                self.domain_reads[v.path] = v
         return super().concrete(v)
 
     # ------------------------------------------------------------------ classes of attributes
@@ -215,18 +309,63 @@ class FlowDT(DT):
     def ev_Starred(self, n, env):
         raise Unsupported("starred expression")
 
+    # ---- generic iteration
+    def _n_lins(self, it) -> list[dict]:
+        """linear forms of the number of elements of a symbolic iterable (one per sequence whose length it equals)"""
+        if isinstance(it, SymIter):
+            if it.kind == "range":
+                start, stop, step = it.items
+                a, b = lin_of(start), lin_of(stop)
+                return [lin_add(b, a, -1)] if step == 1 and a is not None and b is not None else []
+            if it.kind == "enumerate":
+                return self._n_lins(it.items[0])
+            return [d for x in it.items for d in self._n_lins(x)]          # zip: (strict) every member has the common length
+        if isinstance(it, Sym):
+            return [{f"len({it.path})": 1}]
+        return []
+
+    def _elem(self, x, idx: Sym):
+        """the element a generic iteration at position idx sees"""
+        if isinstance(x, SymIter):
+            if x.kind == "range":
+                start, _stop, step = x.items
+                a = lin_of(start)
+                if a is None or not isinstance(step, int):
+                    raise Unsupported("range with a symbolic step")
+                return mk_lin(lin_add(a, {idx.path: step}), _terms(start, idx))
+            if x.kind == "enumerate":
+                start = x.items[1]
+                a = lin_of(start)
+                if a is None:
+                    raise Unsupported("enumerate with a non-numeric start")
+                return (mk_lin(lin_add(a, {idx.path: 1}), _terms(start, idx)), self._elem(x.items[0], idx))
+            return tuple(self._elem(y, idx) for y in x.items)
+        if isinstance(x, Sym):
+            return SubV(f"{x.path}[{idx.path}]", None, x, idx)
+        if isinstance(x, (list, tuple)):
+            inner = [e for e in x if not isinstance(e, Marker)]
+            if any(isinstance(e, Marker) for e in x) and len(inner) == 1 and isinstance(inner[0], Sym):
+                # an accumulator filled by one generic iteration of an earlier loop: a sequence of unknown length whose
+                # members are the items that iteration added
+                src = Sym(f"items({inner[0].path})")
+                return SubV(f"{src.path}[{idx.path}]", None, src, idx)
+            raise Unsupported("zip of a concrete and a symbolic sequence")
+        return Sym(f"{self.show(x)}[{idx.path}]")
+
+    @staticmethod
+    def _generic_seq(it) -> bool:
+        return isinstance(it, (list, tuple)) and any(isinstance(e, Marker) for e in it)
+
+    def _accumulators(self, env) -> list:
+        seen = set()
+        return [v for v in env.values() if isinstance(v, list) and id(v) not in seen and not seen.add(id(v))]
+
     def stmt(self, s, env):
         if isinstance(s, ast.For):
             it = self.concrete(self.ev(s.iter, env))
-            if isinstance(it, Sym) and self.seq_model is not None:
-                m = self.seq_model(it.path)
-                if m is not None:
-                    it = m
-            if isinstance(it, (list, tuple, range, dict)):
+            if isinstance(it, (list, tuple, range, dict)) and not self._generic_seq(it):
                 try:
                     for x in it:
-                        if isinstance(x, RowModel) and isinstance(s.target, (ast.Tuple, ast.List)):
-                            x = (x.key,) + tuple(Sym(f"{x.tag}[{x.key}].{unparse(e)}") for e in s.target.elts[1:])
                         self.assign(s.target, x, env)
                         try:
                             self.block(s.body, env)
@@ -239,25 +378,12 @@ class FlowDT(DT):
                 return
             self.loops += 1
             idx = Sym(f"#i{self.loops}")
-
-            def elem(x):
-                if isinstance(x, SymIter):
-                    if x.kind == "range":
-                        return idx
-                    if x.kind == "enumerate":
-                        return (idx, elem(x.items[0]))
-                    return tuple(elem(y) for y in x.items)
-                if isinstance(x, Sym):
-                    return Sym(f"{x.path}[{idx.path}]")
-                if isinstance(x, (list, tuple)):
-                    raise Unsupported("zip of a concrete and a symbolic sequence")
-                return Sym(f"{self.show(x)}[{idx.path}]")
-            seen = set()
-            lists = [v for v in env.values() if isinstance(v, list) and id(v) not in seen and not seen.add(id(v))]
+            self.gen_loops[idx.path] = self._n_lins(it)
+            lists = self._accumulators(env)
             for lst in lists:
                 lst.append(Marker("begin", idx.path))
             self.effect("loop-begin", idx.path)
-            self.assign(s.target, elem(it), env)
+            self.assign(s.target, self._elem(it, idx), env)
             try:
                 self.block(s.body, env)
             except (_Continue, _Break):
@@ -267,18 +393,28 @@ class FlowDT(DT):
                 lst.append(Marker("end", idx.path))
             return
         if isinstance(s, ast.While):
-            n_it = 0
-            try:
-                while self.truth(self.ev(s.test, env)):
-                    n_it += 1
-                    if n_it > 20000:
-                        raise Unsupported("while loop does not terminate on the model")
-                    try:
-                        self.block(s.body, env)
-                    except _Continue:
-                        continue
-            except _Break:
-                pass
+            # ONE generic iteration from an unconstrained entry state of the loop-carried locals
+            self.loops += 1
+            wid = f"w{self.loops}"
+            stored = sorted({t.id for st in s.body for t in ast.walk(st) if isinstance(t, ast.Name) and isinstance(t.ctx, ast.Store)})
+            entry = {n: env[n] for n in stored if n in env}
+            self.effect("while-begin", wid, {n: self.show(v) for n, v in entry.items()}, raw=entry)
+            for n in stored:
+                env[n] = Sym(f"{n}@{wid}")
+            lists = self._accumulators(env)
+            for lst in lists:
+                lst.append(Marker("begin", wid))
+            if self.truth(self.ev(s.test, env)):
+                try:
+                    self.block(s.body, env)
+                except (_Continue, _Break):
+                    pass
+                post = {n: env[n] for n in stored if n in env}
+                self.effect("while-iter", wid, {n: self.show(v) for n, v in post.items()}, raw=post)
+            for lst in lists:
+                lst.append(Marker("end", wid))
+            for n in stored:
+                env[n] = Sym(f"{n}@{wid}'")           # the state after the loop is not tracked
             return
         if isinstance(s, (ast.Delete, ast.Nonlocal)):
             return
@@ -290,7 +426,53 @@ class FlowDT(DT):
         for x in (lc, rc):
             if isinstance(x, Sym) and x.path.startswith(("pl.", "(pl.")):
                 return Sym(f"({self.show(lc)} {_OPS[type(op)]} {self.show(rc)})")     # a polars expression, not a condition
+        if type(op) in _FLIP and (isinstance(lc, Sym) or isinstance(rc, Sym)):
+            a, b = lin_of(lc), lin_of(rc)
+            if a is not None and b is not None:
+                d = lin_add(a, b, -1)
+                if set(d) <= {""}:
+                    return _cmp(op, d.get("", 0), 0)
+                got = self._position_atom(type(op), d)
+                if got is not None:
+                    return got
+        if isinstance(lc, Sym) or isinstance(rc, Sym):
+            if not (isinstance(op, (ast.Is, ast.IsNot)) and rc is None):
+                self.cmpinfo[f"{self.show(lc)} {_OPS[type(op)]} {self.show(rc)}"] = (type(op), lc, rc)
         return super().compare(op, lc, rc, node)
+
+    def _position_atom(self, op, d: dict):
+        """a comparison of the position of a generic iteration with the ends of the iterated collection: the atoms
+        `<loop> is first` / `<loop> is last` (0 <= position <= n-1 is known), None if it is some other condition"""
+        for idx, n_lins in self.gen_loops.items():
+            c = d.get(idx)
+            if c not in (1, -1):
+                continue
+            dd, o = (d, op) if c == 1 else ({k: -x for k, x in d.items()}, _FLIP[op])
+            rest = {k: x for k, x in dd.items() if k != idx}
+            kind = None
+            if set(rest) <= {""}:                            # position  o  k
+                k = -rest.get("", 0)
+                kind = {ast.Eq: False if k < 0 else "F" if k == 0 else None, ast.NotEq: True if k < 0 else "!F" if k == 0 else None,
+                        ast.Lt: False if k <= 0 else "F" if k == 1 else None, ast.LtE: False if k < 0 else "F" if k == 0 else None,
+                        ast.Gt: True if k < 0 else "!F" if k == 0 else None, ast.GtE: True if k <= 0 else "!F" if k == 1 else None}[o]
+                name = "first"
+            else:
+                for nl in n_lins:                            # position  o  n - m
+                    t = lin_add(rest, nl)
+                    if set(t) <= {""}:
+                        m = t.get("", 0)
+                        kind = {ast.Eq: False if m <= 0 else "F" if m == 1 else None, ast.NotEq: True if m <= 0 else "!F" if m == 1 else None,
+                                ast.Lt: True if m <= 0 else "!F" if m == 1 else None, ast.LtE: True if m <= 1 else "!F" if m == 2 else None,
+                                ast.Gt: False if m <= 1 else "F" if m == 2 else None, ast.GtE: False if m <= 0 else "F" if m == 1 else None}[o]
+                        name = "last"
+                        break
+            if kind is None:
+                return None
+            if isinstance(kind, bool):
+                return kind
+            t = self.atom(f"{idx} is {name}", [True, False])
+            return t if kind == "F" else not t
+        return None
 
     def ev_Attribute(self, n, env):
         base = self.ev(n.value, env)
@@ -311,10 +493,6 @@ class FlowDT(DT):
 
     def _ev_attr_sym(self, n, env, base, path):
         if isinstance(base, Sym):
-            if n.attr == "height" and self.seq_model is not None:
-                m = self.seq_model(base.path)
-                if m is not None:
-                    return len(m)
             bc = self.cls_of(base)
             fi = env.get("__fi__")
             if base.path == "self" and fi is not None and fi.cls:
@@ -341,20 +519,14 @@ class FlowDT(DT):
 
     def ev_Subscript(self, n, env):
         base = self.concrete(self.ev(n.value, env))
-        if isinstance(base, Sym) and self.seq_model is not None and not isinstance(n.slice, ast.Slice):
-            m = self.seq_model(base.path)
-            k = self.concrete(self.ev(n.slice, env)) if m is not None else None
-            if m is not None and isinstance(k, int):
-                try:
-                    return m[k]
-                except IndexError:
-                    raise _Raise("IndexError")
-            if m is not None:
-                return Sym(f"{base.path}[{self.show(k)}]")
-        if isinstance(base, RowModel):
+        if isinstance(base, Sym):
+            if isinstance(n.slice, ast.Slice):
+                lo, hi, st = (self.concrete(self.ev(x, env)) if x is not None else None for x in (n.slice.lower, n.slice.upper, n.slice.step))
+                txt = ":".join("" if x is None else str(self.show(x)) for x in ((lo, hi) if st is None else (lo, hi, st)))
+                return SliceV(f"{base.path}[{txt}]", None, base, lo, hi, st)
             k = self.concrete(self.ev(n.slice, env))
-            return base.key if k == 0 else Sym(f"{base.tag}[{base.key}][{self.show(k)}]")
-        if isinstance(base, (bytes, bytearray)):
+            return SubV(f"{base.path}[{self.show(k)}]", None, base, k)
+        if isinstance(base, (bytes, bytearray)):                      # a bytes literal of the source
             if isinstance(n.slice, ast.Slice):
                 lo = self.concrete(self.ev(n.slice.lower, env)) if n.slice.lower else None
                 hi = self.concrete(self.ev(n.slice.upper, env)) if n.slice.upper else None
@@ -392,14 +564,6 @@ class FlowDT(DT):
     def ev_Set(self, n, env):
         return tuple(self._elts(n.elts, env))
 
-    def model_call(self, name, args, kw):
-        try:
-            return self.call_model[name]([self.concrete(a) if isinstance(a, Sym) else a for a in args], kw)
-        except (NeedAtom, Unsupported, _Raise):
-            raise
-        except Exception as e:       # the modelled external raises: an exception of the interpreted program
-            raise _Raise(type(e).__name__)
-
     def ev_ListComp(self, n, env):
         if len(n.generators) >= 1 and not any(g.is_async for g in n.generators):
             out = []
@@ -410,17 +574,32 @@ class FlowDT(DT):
                     return
                 g = n.generators[gi]
                 it = self.concrete(self.ev(g.iter, e))
-                if isinstance(it, Sym) and self.seq_model is not None and self.seq_model(it.path) is not None:
-                    it = self.seq_model(it.path)
                 if isinstance(it, dict):
                     it = list(it)
-                if not isinstance(it, (list, tuple, range)):
+                copies = isinstance(n.elt, ast.Name) and isinstance(g.target, ast.Name) and n.elt.id == g.target.id and len(n.generators) == 1
+                if isinstance(it, (list, tuple, range)) and (copies or not self._generic_seq(it)):
+                    for x in it:
+                        if isinstance(x, Marker):         # a filtered copy of an accumulator keeps the brackets of its generic part
+                            out.append(x)
+                            continue
+                        e2 = dict(e)
+                        self.assign(g.target, x, e2)
+                        if all(self.truth(self.ev(c, e2)) for c in g.ifs):
+                            rec(gi + 1, e2)
+                    return
+                if not isinstance(it, (Sym, SymIter, list, tuple)):
                     raise _Symbolic()
-                for x in it:
-                    e2 = dict(e)
-                    self.assign(g.target, x, e2)
-                    if all(self.truth(self.ev(c, e2)) for c in g.ifs):
-                        rec(gi + 1, e2)
+                self.loops += 1                      # one generic iteration, as for a for-statement
+                idx = Sym(f"#i{self.loops}")
+                self.gen_loops[idx.path] = self._n_lins(it)
+                out.append(Marker("begin", idx.path))
+                self.effect("loop-begin", idx.path)
+                e2 = dict(e)
+                self.assign(g.target, self._elem(it, idx), e2)
+                if all(self.truth(self.ev(c, e2)) for c in g.ifs):
+                    rec(gi + 1, e2)
+                self.effect("loop-end", idx.path)
+                out.append(Marker("end", idx.path))
             try:
                 rec(0, env)
                 return out
@@ -442,6 +621,10 @@ class FlowDT(DT):
 
     def binop(self, op, l, r, node):
         l, r = self.concrete(l), self.concrete(r)
+        if isinstance(op, (ast.Add, ast.Sub)) and (isinstance(l, Sym) or isinstance(r, Sym)):
+            a, b = lin_of(l), lin_of(r)
+            if a is not None and b is not None:
+                return mk_lin(lin_add(a, b, 1 if isinstance(op, ast.Add) else -1), _terms(l, r))
         if isinstance(op, ast.Add) and isinstance(l, list) and isinstance(r, (Sym, tuple)):
             return l + (list(r) if isinstance(r, tuple) else [r])          # accumulator + content of an emitter
         if isinstance(op, ast.Add) and isinstance(r, list) and isinstance(l, Sym):
@@ -451,9 +634,11 @@ class FlowDT(DT):
         return super().binop(op, l, r, node)
 
     def opaque_sym(self, name: str, args, kw=None) -> Sym:
-        a = [str(self.show(self.concrete(x) if not isinstance(x, (list, tuple, dict)) else x)) for x in args]
+        vals = [self.concrete(x) if not isinstance(x, (list, tuple, dict)) else x for x in args]
+        a = [str(self.show(x)) for x in vals]
         a += [f"{k}={self.show(v)}" for k, v in (kw or {}).items()]
-        return Sym(f"{name}({', '.join(a)})")
+        recv, _dot, fn = name.rpartition(".")
+        return CallV(f"{name}({', '.join(a)})", None, fn, recv, tuple(vals), tuple((kw or {}).items()))
 
     def may_inline(self, fi) -> bool:
         if fi.short.split(".")[-1] in self.opaque:
@@ -474,11 +659,10 @@ class FlowDT(DT):
 
     def call_named(self, cls: str | None, name: str, recv, args, kw, n, env):
         """call of a project function identified by (class, name): model, effect, inline or opaque"""
-        if name in self.call_model:
-            return self.model_call(name, args, kw)
         label = f"{recv.path}.{name}" if isinstance(recv, Sym) else (f"{cls}.{name}" if cls else name)
         if name in self.effect_calls:
-            self.effect("call", name, recv.path if isinstance(recv, Sym) else (cls or ""), tuple(self.show(a) for a in args), {k: self.show(v) for k, v in kw.items()})
+            self.effect("call", name, recv.path if isinstance(recv, Sym) else (cls or ""), tuple(self.show(a) for a in args), {k: self.show(v) for k, v in kw.items()},
+                        raw=(recv, tuple(args), dict(kw)))
             return Sym(f"{label}(…)#{len(self.run_state.effects)}")
         fi = self.pm.find_method(cls, name) if cls else next((f for f in self.pm.funcs.values() if f.short == name and f.cls is None), None)
         if fi is not None and self.may_inline(fi):
@@ -498,19 +682,20 @@ class FlowDT(DT):
                 if nm == "range":
                     if all(isinstance(v, int) for v in args):
                         return range(*args)
-                    if len(args) == 1 or (len(args) == 2 and args[0] == 0):
-                        return SymIter("range", [], str(self.show(args[-1])))
+                    start, stop, step = (0, args[0], 1) if len(args) == 1 else (args[0], args[1], args[2] if len(args) > 2 else 1)
+                    if isinstance(step, int) and step > 0 and lin_of(start) is not None and lin_of(stop) is not None:
+                        return SymIter("range", [start, stop, step], str(self.show(stop)))
                     return Sym("range(" + ", ".join(str(self.show(v)) for v in args) + ")")
                 if nm == "enumerate":
                     start = kw.get("start", args[1] if len(args) > 1 else 0)
-                    if isinstance(args[0], (list, tuple, range)) and isinstance(start, int):
+                    if isinstance(args[0], (list, tuple, range)) and isinstance(start, int) and not self._generic_seq(args[0]):
                         return list(enumerate(args[0], start))
-                    if start != 0:
-                        raise Unsupported("enumerate of a symbolic sequence with a start")
-                    return SymIter("enumerate", [args[0]])
+                    return SymIter("enumerate", [args[0], start])
                 if nm == "zip":
-                    if all(isinstance(a, (list, tuple, range)) for a in args):
+                    if all(isinstance(a, (list, tuple, range)) and not self._generic_seq(a) for a in args):
                         return list(zip(*args))
+                    if any(isinstance(a, (list, tuple, range)) and not self._generic_seq(a) for a in args):
+                        raise _Raise("zip(strict) of a one-element literal list and a sequence of unknown length")
                     return SymIter("zip", list(args))
                 if nm in ("sorted", "reversed"):
                     if isinstance(args[0], (list, tuple, range)) and not any(isinstance(x, Sym) for x in args[0]) and not kw:
@@ -532,10 +717,9 @@ class FlowDT(DT):
             if nm == "len" and bound is None and len(n.args) == 1:
                 v = self.concrete(self.ev(n.args[0], env))
                 if isinstance(v, Sym):
-                    m = self.seq_model(v.path) if self.seq_model is not None else None
-                    return len(m) if m is not None else Sym(f"len({v.path})")
-                if isinstance(v, SymIter):
-                    return Sym(f"len({v.kind})")
+                    return Sym(f"len({v.path})")
+                if isinstance(v, SymIter) or self._generic_seq(v):
+                    raise Unsupported("len of a sequence built by a generic iteration")
                 return len(v)
             if isinstance(bound, Sym) and "." in bound.path and "(" not in bound.path.rsplit(".", 1)[1]:
                 basep, m = bound.path.rsplit(".", 1)        # a bound method held in a local
@@ -557,10 +741,8 @@ class FlowDT(DT):
                     args = [self.ev(a, env) for a in n.args]
                     kw = {k.arg: self.ev(k.value, env) for k in n.keywords}
                     if r is not None and r[0] == "func":
-                        if nm in self.call_model:
-                            return self.model_call(nm, args, kw)
                         if nm in self.effect_calls:
-                            self.effect("call", nm, "", tuple(self.show(a) for a in args), {k: self.show(v) for k, v in kw.items()})
+                            self.effect("call", nm, "", tuple(self.show(a) for a in args), {k: self.show(v) for k, v in kw.items()}, raw=(None, tuple(args), dict(kw)))
                             return Sym(f"{nm}(…)#{len(self.run_state.effects)}")
                         if self.may_inline(r[1]) or (self.inline is None and r[1].cls is None and r[1].module == (fi.module if fi else None) and nm not in self.opaque):
                             return self.invoke(r[1], None, args, n, env, kw)
@@ -568,7 +750,7 @@ class FlowDT(DT):
                     if any(f2.short == nm and f2.cls is None for f2 in self.pm.funcs.values()):
                         return self.call_named(None, nm, None, args, kw, n, env)     # imported inside the function
                     if nm in self.pm.classes:
-                        self.effect("construct", nm, {k: self.show(v) for k, v in kw.items()})
+                        self.effect("construct", nm, {k: self.show(v) for k, v in kw.items()}, raw=dict(kw))
                         return Sym(f"{nm}(…)#{len(self.run_state.effects)}", nm)
                     return self.opaque_sym(nm, args, kw)
             return super().ev_Call(n, env)
@@ -606,6 +788,7 @@ class FlowDT(DT):
                     if base.strip() == "" and all(isinstance(x, (str, Sym, Marker)) for x in flat):
                         if all(isinstance(x, (str, Sym)) for x in flat) and len(flat) <= 64 and not any(isinstance(x, Sym) and re.search(r"\(…\)(#\d+)?$", x.path) for x in flat):
                             return base.join(x if isinstance(x, str) else "‹" + x.path + "›" for x in flat)
+                        self.effect("join", base, len(flat))
                         return flat                   # the sequence of emitted pieces (joined by whitespace only)
                 raise Unsupported("join of " + repr(a)[:40])
             if isinstance(base, tuple) and len(base) == 2 and base[0] == "class":
@@ -621,10 +804,8 @@ class FlowDT(DT):
         return super().ev_Call(n, env)
 
     def call_method_on(self, base: Sym, m: str, args, kw, n, env):
-        if m in self.call_model:
-            return self.model_call(m, args, kw)
         if m in self.effect_calls:
-            self.effect("call", m, base.path, tuple(self.show(a) for a in args), {k: self.show(v) for k, v in kw.items()})
+            self.effect("call", m, base.path, tuple(self.show(a) for a in args), {k: self.show(v) for k, v in kw.items()}, raw=(base, tuple(args), dict(kw)))
             return Sym(f"{base.path}.{m}(…)#{len(self.run_state.effects)}")
         if m == "get" and self.cls_of(base) is None:
             k = self.concrete(args[0])
